@@ -244,6 +244,20 @@ def build_catalog():
     entry("dlbls.position", "dlbls", "position", [E("chart", "XL_DATA_LABEL_POSITION", n) for n in ("CENTER", "INSIDE_END", "OUTSIDE_END", "INSIDE_BASE")] + [NONE], [S("x")], none="none")
     for a in ("show_category_name", "show_legend_key", "show_percentage", "show_series_name", "show_value"):
         entry("dlbls." + a, "dlbls", a, [B(True), B(False)])
+    entry("vax.crosses", "vax", "crosses", [E("chart", "XL_AXIS_CROSSES", n) for n in ("AUTOMATIC", "MAXIMUM", "MINIMUM")], [S("x")], group="crosses")
+    entry("vax.crosses_at", "vax", "crosses_at", lambda r: r.choice([F(0.0), F(2.5), F(-1.0), F(100.0), NONE]), [S("x")], eq_exact, none="none", group="crosses")
+    entry("charttitle.has_text_frame", "charttitle", "has_text_frame", [B(True), B(False)])
+    entry("axistitle.has_text_frame", "axistitle", "has_text_frame", [B(True), B(False)])
+    entry("dlbl.has_text_frame", "dlbl", "has_text_frame", [B(True), B(False)], group="dlbl")
+    entry("dlbl.position", "dlbl", "position", [E("chart", "XL_DATA_LABEL_POSITION", n) for n in ("CENTER", "INSIDE_END", "OUTSIDE_END")] + [NONE], [S("x")], none="none", group="dlbl-pos")
+    entry("xyplot.vary_by_categories", "xyplot", "vary_by_categories", [B(True), B(False)])
+    entry("xyplot.has_data_labels", "xyplot", "has_data_labels", [B(True), B(False)])
+    entry("bubbleplot.vary_by_categories", "bubbleplot", "vary_by_categories", [B(True), B(False)])
+    entry("bubbleplot.has_data_labels", "bubbleplot", "has_data_labels", [B(True), B(False)])
+    entry("lineplot.has_data_labels", "lineplot", "has_data_labels", [B(True), B(False)])
+    entry("pic.auto_shape_type", "pic", "auto_shape_type", [E("shapes", "MSO_SHAPE", n) for n in ("RECTANGLE", "OVAL", "ROUNDED_RECTANGLE", "HEART", "CHEVRON")], [S("oval"), I(99999)])
+    entry("runlink.address", "runlink", "address", lambda r: r.choice([S("http://example.com/"), S("https://a.b/c?d=e&f=g"), S("mailto:x@y.z"), NONE]), [], none="none")
+    entry("clicklink.address", "clicklink", "address", lambda r: r.choice([S("http://example.com/"), S("http://e.x/" + xml_text(r, 6)), NONE]), [], none="none")
     entry("barseries.invert_if_negative", "barseries", "invert_if_negative", [B(True), B(False)])
     entry("lineseries.smooth", "lineseries", "smooth", [B(True), B(False)])
     entry("marker.size", "marker", "size", [I(2), I(5), I(72), I(30), NONE], [I(1), I(73), S("x")], none="none", group="marker-size")
@@ -378,6 +392,30 @@ def locate(prs, obj, a):
         return _chart_of(sl, "BarPlot").category_axis.tick_labels
     if obj == "barplot" or obj == "plot":
         return list(_chart_of(sl, "BarPlot").plots)[0]
+    if obj == "xyplot":
+        return list(_chart_of(sl, "XyPlot").plots)[0]
+    if obj == "lineplot":
+        return list(_chart_of(sl, "LinePlot").plots)[0]
+    if obj == "charttitle":
+        ch = _chart_of(sl, "BarPlot")
+        if not ch.has_title:
+            ch.has_title = True
+        return ch.chart_title
+    if obj == "axistitle":
+        ax = _chart_of(sl, "LinePlot").value_axis
+        if not ax.has_title:
+            ax.has_title = True
+        return ax.axis_title
+    if obj == "dlbl":
+        return list(_chart_of(sl, "LinePlot").plots)[0].series[0].points[a.get("i", 0) % 2].data_label
+    if obj == "runlink":
+        ps = _shape_of(sl, tb).text_frame.paragraphs
+        p = ps[a.get("i", 0) % len(ps)]
+        if not p.runs:
+            raise O.Skip("no runs")
+        return p.runs[0].hyperlink
+    if obj == "clicklink":
+        return _shape_of(sl, auto, a.get("i", 0)).click_action.hyperlink
     if obj == "bubbleplot":
         return list(_chart_of(sl, "BubblePlot").plots)[0]
     if obj == "dlbls":
@@ -492,7 +530,7 @@ def _set(w, deck, a):
         return _set_unjudged(w, deck, a, e)
     o = locate(deck.prs, e["obj"], a)
     # navigating to a container that had to be switched on (legend, data labels) changes the switch property
-    sw = {"legend": "chart.has_legend", "dlbls": "plot.has_data_labels"}.get(e["obj"])
+    sw = {"legend": "chart.has_legend", "dlbls": "plot.has_data_labels", "charttitle": "chart.has_title"}.get(e["obj"])
     if sw:
         for k in list(_memo(deck)["vals"]):
             if _memo(deck)["vals"][k]["entry"] == sw:
@@ -501,7 +539,7 @@ def _set(w, deck, a):
         v = dec(a["v"])
     except (ValueError, KeyError, AttributeError):
         raise O.Skip("value spec not decodable here")
-    key = "%s|%d" % (a["entry"], a.get("i", 0) if e["obj"] in ("shape", "p", "font", "cell", "col", "row", "barseries", "lineseries", "marker", "gradstop", "cxn") else 0)
+    key = "%s|%d" % (a["entry"], a.get("i", 0) if e["obj"] in ("shape", "p", "font", "cell", "col", "row", "barseries", "lineseries", "marker", "gradstop", "cxn", "dlbl", "runlink", "clicklink") else 0)
     before_self = norm(sget(o, e))
     others = read_all(o, e["obj"], e["group"])
     try:
@@ -524,9 +562,10 @@ def _set(w, deck, a):
             # knew about this property (and its dependency group) is forgotten.  Whether the part is still schema-valid
             # after such a call is C03's question (C03 runs these same catalog assignments under the XSD oracle).
             w.stats.hit("c09_rejected_value_changed_the_property")
-            for k in list(_memo(deck)["vals"]):
-                if CAT[_memo(deck)["vals"][k]["entry"]]["group"] == e["group"]:
-                    del _memo(deck)["vals"][k]
+        # a rejected assignment may have removed the old setting of the property or of a member of its dependency group
+        for k in list(_memo(deck)["vals"]):
+            if CAT[_memo(deck)["vals"][k]["entry"]]["group"] == e["group"]:
+                del _memo(deck)["vals"][k]
         others2 = read_all(o, e["obj"], e["group"])
         if others2 != others:
             ch = sorted(k for k in others if others[k] != others2.get(k))
@@ -558,8 +597,8 @@ def _set(w, deck, a):
     # members of the same dependency group are no longer predictable; a container switch (has_legend, has_data_labels)
     # invalidates what was recorded about the container's own properties, and navigating to a container that had to
     # be switched on invalidates what was recorded about the switch
-    INVALIDATES = {"chart.has_legend": "legend.", "plot.has_data_labels": "dlbls.", "cax.has_title": None, "vax.has_title": None}
-    SWITCH_OF = {"legend": "chart.has_legend", "dlbls": "plot.has_data_labels"}
+    INVALIDATES = {"chart.has_legend": "legend.", "plot.has_data_labels": "dlbls.", "chart.has_title": "charttitle."}
+    SWITCH_OF = {"legend": "chart.has_legend", "dlbls": "plot.has_data_labels", "charttitle": "chart.has_title"}
     for k in list(_memo(deck)["vals"]):
         eid2 = _memo(deck)["vals"][k]["entry"]
         ent2 = CAT[eid2]
@@ -670,3 +709,31 @@ def pinned_traces(tier):
         evs += [{"op": "checkpoint", "sink": "seekable"}, {"op": "restart"}]
         out.append({"property": ID, "seed": "entry-%s" % eid, "tier": "pinned", "config": {"pinned": True}, "start": [{"deck": "default"}], "events": evs})
     return out
+
+
+def extra_coverage():
+    """Catalog size vs the settable properties found by reflection over the public proxy classes."""
+    import importlib
+    import inspect
+    import pkgutil
+    import pptx
+    build_catalog()
+    refl = []
+    for m in pkgutil.walk_packages(pptx.__path__, "pptx."):
+        n = m.name
+        if any(x in n for x in (".oxml", ".opc", ".parts", ".enum", "compat")):
+            continue
+        try:
+            mod = importlib.import_module(n)
+        except Exception:  # noqa: BLE001
+            continue
+        for cname, cls in inspect.getmembers(mod, inspect.isclass):
+            if cls.__module__ != n:
+                continue
+            for name, attr in cls.__dict__.items():
+                if not name.startswith("_") and isinstance(attr, property) and attr.fset is not None:
+                    refl.append("%s.%s" % (cname, name))
+    covered_attrs = {e["attr"] for e in CAT.values()}
+    not_in_catalog = sorted(x for x in refl if x.split(".")[1] not in covered_attrs)
+    return {"catalog_entries": len(CAT), "settable_properties_by_reflection": len(refl),
+            "reflected_properties_whose_attribute_name_is_not_in_the_catalog": not_in_catalog}
